@@ -15,6 +15,7 @@ use crate::vocab::hex;
 use crate::Ctx;
 
 pub fn gen_case(rng: &mut Rng, idx: usize, thorough: bool) -> Value {
+    if idx % 7 == 6 { return json!({"kind": "tokjson", "seed": rng.next() % 1_000_000_000, "len": if thorough { 60 } else { 30 }}); }
     let kind = if idx % 2 == 0 { "svob" } else { "trie" };
     json!({"kind": kind, "seed": rng.next() % 1_000_000_000, "len": if thorough { 60 } else { 30 }})
 }
@@ -23,6 +24,7 @@ pub fn run_case(ctx: &Ctx, case: &Value, tag: usize, rep: &mut Report, mb: &mut 
     match case["kind"].as_str().unwrap_or("") {
         "svob" => run_svob(ctx, case, tag, rep, mb),
         "trie" => run_trie(ctx, case, tag, rep, mb),
+        "tokjson" => run_tokjson(case, rep),
         _ => rep.skip("unknown-kind"),
     }
 }
@@ -367,6 +369,68 @@ fn flat_nodes(trie: &TokTrie) -> String {
     let mut out = vec![];
     rec(trie, trie.root(), &mut out);
     out.join(";")
+}
+
+/// impl-vs-oracle: `token_bytes_from_tokenizer_json` on synthetic tokenizer descriptions (byte-fallback with a space
+/// marker, byte-level with the GPT-2 character table) against a naive decoder of the token names
+fn run_tokjson(case: &Value, rep: &mut Report) {
+    let mut rng = Rng::new(case["seed"].as_u64().unwrap());
+    rep.evaluations += 1;
+    let byte_level = rng.chance(1, 3);
+    let marker = if rng.chance(3, 4) { '\u{2581}' } else { '\u{120}' };
+    let mut vocab = serde_json::Map::new();
+    let mut expect: Vec<Option<Vec<u8>>> = vec![];
+    let mut id = 0usize;
+    // GPT-2 bytes_to_unicode
+    let self_mapped = |c: char| ('!'..='~').contains(&c) || ('\u{a1}'..='\u{ac}').contains(&c) || ('\u{ae}'..='\u{ff}').contains(&c);
+    let mut b2u = vec!['\0'; 256];
+    let mut k = 0x100u32;
+    for b in 0..=255u8 { let c = b as char; if self_mapped(c) { b2u[b as usize] = c; } else { b2u[b as usize] = char::from_u32(k).unwrap(); k += 1; } }
+    let added = json!([{"id": 0, "content": "<s>", "special": true}, {"id": 1, "content": "<tool>", "special": false}]);
+    expect.push(Some(b"\xff<s>".to_vec())); expect.push(Some(b"<tool>".to_vec()));
+    id += 2;
+    vocab.insert("<s>".into(), json!(0)); vocab.insert("<tool>".into(), json!(1));
+    let n = case["len"].as_u64().unwrap_or(30) as usize;
+    let pieces = ["a", "b", "the", "ing", ".", ",", "\n", "\u{e9}", "\u{65e5}", "x", "0"];
+    for _ in 0..n {
+        if byte_level {
+            let l = 1 + rng.below(4);
+            let bytes: Vec<u8> = (0..l).map(|_| [b' ', b'a', b'\n', 0xc3, 0xa9, b'{', 0x00, 0x7f, 0xff, b'z'][rng.below(10)]).collect();
+            let name: String = bytes.iter().map(|b| b2u[*b as usize]).collect();
+            if vocab.contains_key(&name) { continue; }
+            vocab.insert(name, json!(id)); expect.push(Some(bytes)); id += 1;
+        } else if rng.chance(1, 5) {
+            let b = rng.below(256) as u8;
+            let name = format!("<0x{b:02X}>");
+            if vocab.contains_key(&name) { continue; }
+            vocab.insert(name, json!(id)); expect.push(Some(vec![b])); id += 1;
+        } else {
+            // the space marker at the start, in the middle, at the end, repeated
+            let mut name = String::new();
+            for _ in 0..1 + rng.below(4) { if rng.chance(1, 3) { name.push(marker); } else { name.push_str(pieces[rng.below(pieces.len())]); } }
+            if vocab.contains_key(&name) || name.starts_with("<0x") { continue; }
+            let bytes = name.replace(marker, " ").into_bytes();
+            vocab.insert(name, json!(id)); expect.push(Some(bytes)); id += 1;
+        }
+    }
+    let decoder = if byte_level { json!({"type": "ByteLevel"}) } else {
+        json!({"type": "Sequence", "decoders": [{"type": "Replace", "pattern": {"String": marker.to_string()}, "content": " "}, {"type": "ByteFallback"}, {"type": "Fuse"}]})
+    };
+    let tj = json!({"decoder": decoder, "added_tokens": added, "model": {"vocab": vocab}});
+    match llguidance::token_bytes_from_tokenizer_json(&tj) {
+        Ok(got) => {
+            for (i, e) in expect.iter().enumerate() {
+                let g = got.get(i).cloned().unwrap_or_default();
+                if Some(&g) != e.as_ref() {
+                    rep.fail("oracle", "c16:tokenizer-json-bytes", format!("token {i}: token_bytes_from_tokenizer_json gives {}, the decoder of the description gives {}", hex(&g), hex(e.as_ref().unwrap())), json!({"case": case, "tokenizer_json": tj}));
+                    return;
+                }
+            }
+            rep.count(if byte_level { "tokjson.byte_level" } else { "tokjson.byte_fallback" });
+            rep.nontrivial(format!("tokjson|{}|{}", case["seed"], byte_level));
+        }
+        Err(e) => rep.fail("oracle", "c16:tokenizer-json-rejected", format!("a well-formed tokenizer description was rejected: {e}"), json!({"case": case, "tokenizer_json": tj})),
+    }
 }
 
 pub fn random_vocab(rng: &mut Rng) -> Vec<Vec<u8>> {
